@@ -491,18 +491,6 @@ impl VersionManager {
 
         let start_time = Instant::now();
 
-        // For OneWriteMultiRead, ensure no other writers are active
-        if self.concurrency_level == ConcurrencyLevel::OneWriteMultiRead {
-            #[cfg(zipora_verif)]
-            sched_point(pt::W_LOAD_AW);
-            let current_writers = self.active_writers.load(Ordering::Acquire);
-            if current_writers > 0 {
-                return Err(ZiporaError::resource_busy(
-                    "Another writer is already active in OneWriteMultiRead mode",
-                ));
-            }
-        }
-
         // Acquire version under lock for synchronized levels
         let (version, min_version) = if self.concurrency_level.requires_synchronization() {
             #[cfg(zipora_verif)]
@@ -511,6 +499,23 @@ impl VersionManager {
                 ZiporaError::system_error("Failed to acquire token chain mutex for writer")
             })?;
 
+            // For OneWriteMultiRead, ensure no other writers are active.  The check and the
+            // increment of `active_writers` below happen inside the same critical section:
+            // every increment of the counter is made under `token_chain_mutex`, so two
+            // writers can never both observe zero.
+            if self.concurrency_level == ConcurrencyLevel::OneWriteMultiRead {
+                #[cfg(zipora_verif)]
+                sched_point(pt::W_LOAD_AW);
+                let current_writers = self.active_writers.load(Ordering::Acquire);
+                if current_writers > 0 {
+                    #[cfg(zipora_verif)]
+                    sched_point(pt::W_BUSY_UNLOCK);
+                    return Err(ZiporaError::resource_busy(
+                        "Another writer is already active in OneWriteMultiRead mode",
+                    ));
+                }
+            }
+
             #[cfg(zipora_verif)]
             sched_point(pt::W_LOAD_MIN);
             let current_min = self.min_version.load(Ordering::Acquire);
@@ -518,17 +523,21 @@ impl VersionManager {
             sched_point(pt::W_FADD_CUR);
             let version = self.current_version.fetch_add(1, Ordering::AcqRel) + 1;
 
+            // Increment active writer count (still holding the mutex, see above)
+            #[cfg(zipora_verif)]
+            sched_point(pt::W_INC);
+            self.active_writers.fetch_add(1, Ordering::Relaxed);
+
             #[cfg(zipora_verif)]
             sched_point(pt::W_UNLOCK);
             (version, current_min)
         } else {
+            // Increment active writer count
+            #[cfg(zipora_verif)]
+            sched_point(pt::W_INC);
+            self.active_writers.fetch_add(1, Ordering::Relaxed);
             (1, 1)
         };
-
-        // Increment active writer count
-        #[cfg(zipora_verif)]
-        sched_point(pt::W_INC);
-        self.active_writers.fetch_add(1, Ordering::Relaxed);
 
         // Update statistics
         if let Ok(mut stats) = self.stats.lock() {
